@@ -364,6 +364,14 @@ func c19Enumerated(c *Case) {
 		form{"nested match in a block body", Arr(N("1"), Arr(N("2"), N("3"))), []*MatchCase{{Pats: []Expr{Arr(x, rest)}, Block: Blk(Pr(S("outer"), x), ES(&MatchExpr{Subj: rest, Cases: []*MatchCase{{Pats: []Expr{Arr(x, y)}, Block: Blk(Pr(S("inner"), x, y))}}}), Pr(S("outer again"), x, &IsExpr{X: y, T: "unknown"}))}}},
 		form{"nested match as the subject of the outer body's match", Arr(N("5"), N("6")), []*MatchCase{with(ex(inner(inner(x, Bin("+", x, N("1")), x), Arr(x, y), x)), Arr(x, y))}},
 	)
+	us := V("_")
+	forms = append(forms,
+		form{"the name _ binds the value", N("7"), []*MatchCase{with(ex(S("one")), N("1")), with(ex(Bin("+", us, N("1"))), us)}},
+		form{"the name _ inside an array pattern binds the element", Arr(N("4"), N("9")), []*MatchCase{with(ex(Bin("+", Bin("*", us, N("10")), y)), Arr(us, y))}},
+		form{"array pattern with several literals: an early mismatch decides", Arr(N("3"), N("2")), []*MatchCase{with(ex(S("wrong")), Arr(N("1"), N("2"))), with(ex(S("right")), Arr(N("3"), N("2")))}},
+		form{"array pattern with literals and a nested pattern: an early mismatch decides", Arr(S("mul"), N("4"), Arr(N("0"))), []*MatchCase{with(ex(S("add")), Arr(S("add"), x, Arr(N("0")))), with(ex(Arr(S("mul"), x)), Arr(S("mul"), x, Arr(N("0"))))}},
+		form{"array pattern: first and last literal match, middle differs", Arr(N("1"), N("5"), N("3")), []*MatchCase{with(ex(S("wrong")), Arr(N("1"), N("2"), N("3"))), with(ex(S("other")), x)}},
+	)
 	for _, f := range forms {
 		p := &Program{Items: []any{&Rule{Kind: "BEGIN", Body: Blk(Pr(S("value"), jsonOf(&MatchExpr{Subj: f.subj, Cases: f.cs})), Pr(S("after")))}}}
 		c.NonTrivial("form:" + f.name)
